@@ -9,6 +9,7 @@ Theorem C16_decrypt_encrypt :
     (forall a b, dh a (pubof b) = dh b (pubof a)) ->
     (forall k n p, let '(c, t) := aead_enc k n p in aead_dec k n c t = Some p /\ length t = 16%nat) ->
     (forall a, length (pubof a) = 32%nat) ->
+    (forall a, canonical_pub (pubof a) = true) ->
   forall sk esk nonce pt cookie, length nonce = 12%nat -> length cookie = 32%nat ->
     els_decrypt dh kdf aead_dec cookie sk (els_encrypt dh pubof kdf aead_enc (pubof sk) esk nonce pt) = Ok pt.
 Proof. exact els_decrypt_encrypt. Qed.
@@ -22,6 +23,11 @@ Theorem C16_decryption_uses_exactly_the_parts : forall dh kdf aead_dec cookie sk
   els_split d = Ok (e, n, c, t) -> els_decrypt dh kdf aead_dec cookie sk d = Ok p ->
   aead_dec (kdf (dh sk e)) n c t = Some p.
 Proof. exact els_decrypt_inputs. Qed.
+(* the key agreement ignores the top bit of its public input: only the canonical encoding of the
+   ephemeral key is accepted, so that bit cannot be flipped unnoticed (defect D23, repaired) *)
+Theorem C16_noncanonical_ephemeral_key_rejected : forall dh kdf aead_dec cookie sk d e n c t,
+  els_split d = Ok (e, n, c, t) -> canonical_pub e = false -> els_decrypt dh kdf aead_dec cookie sk d = Err.
+Proof. exact els_decrypt_noncanonical. Qed.
 Theorem C16_short_data_rejected : forall dh kdf aead_dec cookie sk d, (length d < 60)%nat ->
   els_decrypt dh kdf aead_dec cookie sk d = Err.
 Proof. exact els_decrypt_short. Qed.
